@@ -92,7 +92,7 @@ func CacheWriteDiscipline(p *core.Program, r *core.Report, rule string) {
 		r.Check(ok, rule, construct, pos, "stored under the lookup key and returned as the answer", why)
 	}
 	r.RuleCounts[rule+"-stores"] = n
-	r.Floor(rule+"-stores", 2)
+	r.Floor(rule+"-stores", 1) // the two stores of today (negative egress verdict, final verdict) become one when the uncached computation is extracted
 	// a hit returns the cached value unchanged
 	for _, cs := range lookups {
 		fd := cs.In
